@@ -152,14 +152,23 @@ class Committed:
         return out
 
     def check_raises(self) -> tuple[bool, str]:
+        """open + check on a fresh handle AND check on the handle that wrote
+        the dataset: both must refuse (returns False if either accepts)."""
         from sedpack.io import Dataset
         try:
             ds = Dataset(self.root)
             ds.check(show_progressbar=False,
                      hash_checksums_values=self.root_expected)
         except Exception as exc:  # pylint: disable=broad-except
-            return True, type(exc).__name__
-        return False, ""
+            how = type(exc).__name__
+        else:
+            return False, "fresh handle"
+        try:
+            self.h.ds.check(show_progressbar=False,
+                            hash_checksums_values=self.root_expected)
+        except Exception:  # pylint: disable=broad-except
+            return True, how
+        return False, "writing handle"
 
 
 def apply_fault(c: Committed, rel: str, kind: str, pos: int, bit: int,
@@ -262,8 +271,9 @@ def one_fault(c: Committed, ctx, rel: str, role: str, kind: str, pos: int,
         ctx.count(f"faults:{role}:{kind}")
         if not raised:
             ctx.fail(
-                "detect", ("undetected", role, kind),
-                f"{kind} of {rel} (pos {pos % max(size, 1)} of {size}, bit "
+                "detect", ("undetected", role, kind) +
+                (("writing-handle",) if how == "writing handle" else ()),
+                f"[{how}] {kind} of {rel} (pos {pos % max(size, 1)} of {size}, bit "
                 f"{bit}, other={other}) changed the bytes of {changed} but "
                 f"open+check returned normally; algorithms {c.algos}")
     finally:
